@@ -204,6 +204,20 @@ def primitive(draw, ctx, kinds=None):
                 fixed.append((nm, v))
                 seen = v
             t.ext_named = fixed
+            # X.680 only asks the additions to ascend among themselves: sometimes start them below the largest
+            # root value (non-negative, see the C11 finding enum.addition-negative)
+            if style and ne and draw(st.integers(0, 3)) == 0:
+                free = [x for x in range(0, min(top, 400)) if x not in vals]
+                if free:
+                    cur = free[draw(st.integers(0, len(free) - 1))]
+                    low = []
+                    for nm, _ in t.ext_named:
+                        while cur in vals:
+                            cur += 1
+                        low.append((nm, cur))
+                        cur += draw(st.integers(1, 3))
+                    t.ext_named = low
+                    t.flags = dict(t.flags or {}, ext_below_root=True)
     elif k == "BITSTRING":
         if c:
             t.size = draw(int_constraint(cfg, size=True))
